@@ -57,8 +57,13 @@ void k_schedule(fiber_scheduler_t* sched, fiber_t* f) {
   for (int t = 1; t <= NF; t++) {
     if (k_fiber[t] == f) {
       vm_assert(!k_done[t], "contract (C01): a finished fiber was scheduled");
-      vm_assert(k_suspended[t] || f->state == FIBER_STATE_SAVING_STATE_TO_WAIT,
-                "contract (C01): a fiber was made runnable before its suspension had begun and outside the SAVING protocol (it would be resumed while still running)");
+      {
+        /* read the state FIRST: SAVING -> ok; anything else means the deferred actions have run, i.e. the suspension began earlier */
+        const fiber_state_t st_now = f->state;
+        const uint64_t susp = k_suspended[t];
+        vm_assert(st_now == FIBER_STATE_SAVING_STATE_TO_WAIT || susp,
+                  "contract (C01): a fiber was made runnable before its suspension had begun and outside the SAVING protocol (it would be resumed while still running)");
+      }
       uint64_t old = __atomic_exchange_n(&k_runnable[t], 1, __ATOMIC_SEQ_CST);
       vm_assert(old == 0, "contract (C02): a fiber was scheduled twice for one wake-up");
       return;
